@@ -96,6 +96,22 @@ CLAIMED = {
         technique="contract-based deductive verification (exception-escape obligations, path-wise VCs, z3) plus a "
                   "bounded exhaustive stand-in for literal processing",
     ),
+    'C35': dict(
+        category='proof', engine='pyvc',
+        text="All functions of pkgconfig.py are under contract: each of the six token filters is verified on a "
+             "generic whitespace-free token (included iff its prefix designates the keyword; -I/-L/-l strip two "
+             "characters; -Dk=v splits at the first '=' and -Dk gives (k, None); the other lists keep the token), "
+             "flags_from_pkgconfig wires each keyword to the right filter over the right pkg-config output in "
+             "package order, merge_flags concatenates per key and raises TypeError for non-lists, call() returns "
+             "the decoded output or raises PkgConfigError on OSError, non-zero status, undecodable output and "
+             "backslashes, and nothing else escapes. Two lemmas give the partition of tokens.",
+        design_ref='DESIGN.md section 4 C35',
+        note="Trusted: z3 string theory; vf/pyexec.py; str.split() semantics and the filter/map congruence lemma "
+             "(not mechanised); assumed contracts of subprocess.Popen/communicate/bytes.decode. The outer loop over "
+             "the package list is checked for 0, 1 and 2 packages.",
+        technique="contract-based deductive verification of the real Python functions: per-token and structural "
+                  "obligations, path-wise VCs from ast.parse, z3 strings",
+    ),
     'C16': dict(
         category='proof',
         text="Index, slice and pointer-arithmetic functions are verified against the byte model: an array index is "
